@@ -396,12 +396,14 @@ def fam_starve(rng):
     """A victim locker (fiber 0) among barging threads that lock/unlock repeatedly (C14): victim writer among
     writers, writer among readers, reader among writers.  Run under the adversarial strategy 4 (the victim is
     scheduled only while somebody holds the mutex, so each of its retries loses the race) as well as randomly."""
-    kind = rng.choice(["ww", "wr", "rw", "wt", "wt", "wq", "rt"])     # t: try-lock bargers (never block), q: rtrylock bargers
+    kind = rng.choice(["ww", "wr", "wr", "rw", "wt", "wt", "wq", "rt"])     # t: try-lock bargers (never block), q: rtrylock bargers
     lines = ["sem %s" % rng.choice(["counting", "binary"]), "objs mu=1 var=1", "var x0 0 mu0"]
     lines.append("fiber yield ; %s mu0 ; %s mu0" % (("lock", "unlock") if kind[0] == "w" else ("rlock", "runlock")))
-    for _ in range(rng.choice([3, 4, 5])):
+    # a SINGLE reader hog (runlock; rlock back to back) leaves the victim writer the sole waiter: the unlock that wakes it
+    # clears MU_WRITER_WAITING, and from then on MU_LONG_WAIT is the only thing that keeps a fresh reader out
+    for _ in range(rng.choice([1, 1, 3, 4]) if kind == "wr" else rng.choice([3, 4, 5])):
         acq, rel = {"w": ("lock", "unlock"), "r": ("rlock", "runlock"), "t": ("trylock", "unlock_if"), "q": ("rtrylock", "runlock_if")}[kind[1]]
-        n = rng.choice([30, 45, 60])
+        n = rng.choice([60, 75]) if kind == "wr" else rng.choice([30, 45, 60])
         lines.append("fiber " + " ; ".join(["%s mu0 ; yield ; %s mu0" % (acq, rel)] * n))
     lines.append("#strategy4")
     return lines
